@@ -192,7 +192,115 @@ def run_trial(case):
     return out, None, {'requests': len(plan), 'generated': len(generated)}
 
 
+def preempt_points():
+    """number of line events of ak/conn_http.py that one request executes before it reaches the opener"""
+    from ak import conn_http
+    fname = conn_http.__file__
+    n = [0]
+    done = [False]
+
+    def tracer(frame, event, arg):
+        if frame.f_code.co_filename != fname:
+            return None
+
+        def local(frame, event, arg):
+            if event == 'line' and not done[0]:
+                n[0] += 1
+            return local
+        return local
+    captured = []
+    with stub_opener(captured):
+        root = conn_http.HttpConn('http://h.test:8080')
+        sys.settrace(tracer)
+        try:
+            root.get('/a')
+        finally:
+            sys.settrace(None)
+    return n[0]
+
+
+def preempt_trial(point, b_on_derived, timeout=2.0):
+    """thread A is suspended just before its `point`-th line event inside ak/conn_http.py; thread B then performs a
+    complete request (on a derived connection or on the same one); A resumes.  -> (violations, infra, stats)"""
+    from ak import conn_http
+    fname = conn_http.__file__
+    captured = []
+    reached = threading.Event()
+    resume = threading.Event()
+    state = {'n': 0, 'paused': False}
+
+    def tracer(frame, event, arg):
+        if frame.f_code.co_filename != fname:
+            return None
+
+        def local(frame, event, arg):
+            if event == 'line' and not state['paused']:
+                state['n'] += 1
+                if state['n'] == point:
+                    state['paused'] = True
+                    reached.set()
+                    resume.wait(timeout * 4)
+            return local
+        return local
+    err = []
+    with stub_opener(captured):
+        root = conn_http.HttpConn('http://h.test:8080')
+        other = conn_http.HttpConn(root) if b_on_derived else root
+
+        def run_a():
+            sys.settrace(tracer)
+            try:
+                root.get('/a')
+            except BaseException as e:      # noqa
+                err.append(('A', e))
+            finally:
+                sys.settrace(None)
+
+        def run_b():
+            try:
+                other.get('/b')
+            except BaseException as e:      # noqa
+                err.append(('B', e))
+        ta = threading.Thread(target=run_a, daemon=True)
+        ta.start()
+        if not reached.wait(timeout):
+            resume.set()
+            ta.join(timeout)
+            return [], None, {'requests': 0, 'reached': False}
+        tb = threading.Thread(target=run_b, daemon=True)
+        tb.start()
+        tb.join(0.25)                 # B may be waiting for the lock A holds: that is the lock doing its job
+        blocked = tb.is_alive()
+        resume.set()
+        ta.join(timeout)
+        tb.join(timeout)
+        if ta.is_alive() or tb.is_alive():
+            return [], "a thread is still running after the forced schedule", {}
+    out = []
+    for who, e in err:
+        out.append(('numbers_gapless', 'exception-' + type(e).__name__, f"request of thread {who} raises {type(e).__name__}: {e}"))
+    ids = []
+    for r in captured:
+        rid = header(r, 'X-Request-ID')
+        ids.append(rid.decode('latin-1') if isinstance(rid, bytes) else rid)
+    if not out:
+        if len(ids) != 2 or None in ids:
+            out.append(('ids_distinct', 'no-id', f"forced schedule: requests carry ids {ids}"))
+        elif ids[0] == ids[1]:
+            out.append(('ids_distinct', 'duplicate', f"forced schedule: both requests carry X-Request-ID {ids[0]!r}"))
+        else:
+            nums = []
+            for rid in ids:
+                m = ID_RE.match(rid)
+                nums.append(int(m.group('num')) if m else None)
+            if sorted(n for n in nums if n is not None) != [0, 1]:
+                out.append(('numbers_gapless', 'gap-or-repeat', f"forced schedule: sequence numbers {nums}"))
+    return out, None, {'requests': 2, 'reached': True, 'b_waited_for_lock': blocked}
+
+
 def cases(tier, seed):
+    for derived in (True, False):
+        yield {'kind': 'preempt-all', 'b_on_derived': derived, 'seed': seed}
     yield {'kind': 'sequential', 'seed': seed, 'threads': 3, 'per_thread': 12, 'derived': 4, 'caller_p': 0.25}
     yield {'kind': 'sequential', 'seed': seed + 1, 'threads': 1, 'per_thread': 30, 'derived': 0, 'caller_p': 0.5}
     n = 10 if tier == 'quick' else 40
@@ -202,8 +310,39 @@ def cases(tier, seed):
                'caller_p': [0.0, 0.1, 0.3][k % 3]}
 
 
+def run_preempt_all(b, case):
+    """every single-preemption schedule (line granularity inside ak/conn_http.py) of one request against a second,
+    complete request: exhaustive for that family of schedules"""
+    n = preempt_points()
+    if n < 10:
+        b.error(f"only {n} pre-emption points found in a request (tracing does not work?)")
+        return
+    waited = 0
+    for point in range(1, n + 1):
+        sub = {'kind': 'preempt', 'point': point, 'b_on_derived': case['b_on_derived']}
+        b.case(sub, nontrivial=True)
+        try:
+            res, infra, stats = preempt_trial(point, case['b_on_derived'])
+        except Exception as e:      # noqa - bug of this harness
+            b.error(f"harness exception {type(e).__name__}: {e} on {sub}")
+            continue
+        if infra:
+            b.error(f"{infra} on {sub}")
+        b.count(stats.get('requests', 0))
+        if stats.get('b_waited_for_lock'):
+            waited += 1
+        for clause, ksuf, text in res:
+            b.fail(f"C16.{clause}", f"C16.{clause}:{ksuf}", f"{text}  [{sub}]", sub)
+    b.hit('forced-single-preemption-schedules')
+    if waited:
+        b.hit('second-thread-waited-for-the-lock')
+
+
 def run(b):
     for case in cases(b.tier, b.seed):
+        if case['kind'] == 'preempt-all':
+            run_preempt_all(b, case)
+            continue
         b.case(case, nontrivial=(case['kind'] == 'threads' and case['derived'] > 0))
         try:
             res, infra, stats = run_trial(case)
@@ -221,11 +360,15 @@ def run(b):
             b.hit('caller-supplied-id')
         for clause, ksuf, text in res:
             b.fail(f"C16.{clause}", f"C16.{clause}:{ksuf}", f"{text}  [{case}]", case)
-    b.require_reach(['concurrent-run', 'derived-connections-share-counter', 'caller-supplied-id'])
+    b.require_reach(['concurrent-run', 'derived-connections-share-counter', 'caller-supplied-id',
+                     'forced-single-preemption-schedules', 'second-thread-waited-for-the-lock'])
 
 
 def replay_case(case):
-    res, infra, _stats = run_trial(case)
+    if case.get('kind') == 'preempt':
+        res, infra, _stats = preempt_trial(case['point'], case['b_on_derived'])
+    else:
+        res, infra, _stats = run_trial(case)
     if infra:
         return True, [f"not evaluated: {infra}"]
     return (not res), [f"{c} [{k}]: {t}" for c, k, t in res]
